@@ -4,6 +4,9 @@
 # usage: mutmatrix.sh [file ...]   (default: all hand-written sources)
 # The go build cache grows by ~25 MB per mutant and is never trimmed by go itself: jobs run in chunks, the cache is emptied in between.
 mkdir -p /verif/mutation
+# a build cache of its own: emptying it between chunks must not pull the rug from under other builds on the machine
+export GOCACHE=${MUT_GOCACHE:-/tmp/mut-gocache}
+mkdir -p "$GOCACHE"
 OUT=${MUT_OUT:-/verif/mutation/results.txt}
 JOBS=$(mktemp /tmp/mut_jobs.XXXXXX)
 FILES="$*"
@@ -17,7 +20,7 @@ wc -l < $JOBS
 split -l ${MUT_CHUNK:-300} $JOBS $JOBS.part.
 for part in $JOBS.part.*; do
   xargs -P ${MUT_JOBS:-10} -L 1 /verif/tools/mutone.sh < $part >> "$OUT" 2>/dev/null
-  go clean -cache >/dev/null 2>&1
+  rm -rf "$GOCACHE"; mkdir -p "$GOCACHE"
 done
-rm -f $JOBS $JOBS.part.*
+rm -f $JOBS $JOBS.part.*; rm -rf "$GOCACHE"
 awk '{c[$3]++} END {for (k in c) print k, c[k]}' "$OUT"
